@@ -127,7 +127,7 @@ func (c *pathParser) parsePath(svgPath string) ([]pathItem, error) {
 	data := []byte(svgPath)
 	lastIndex := -1
 	for i, v := range data {
-		if ('a' <= v && v <= 'z' || 'A' <= v && v <= 'Z') && v != 'e' {
+		if ('a' <= v && v <= 'z' || 'A' <= v && v <= 'Z') && v != 'e' && v != 'E' {
 			if lastIndex != -1 {
 				if err := c.addSeg(data[lastIndex:i]); err != nil {
 					return nil, err
@@ -410,7 +410,7 @@ func (c *pathParser) addArcFromA(points []Fl) {
 		float64(c.currentY), float64(points[5]), float64(points[6]), points[4] == 0, points[3] == 0)
 	points[0], points[1] = Fl(ra), Fl(rb)
 
-	c.currentX, c.currentY = c.addArc(c.points, Fl(cx), Fl(cy), c.currentX, c.currentY)
+	c.currentX, c.currentY = c.addArc(points, Fl(cx), Fl(cy), c.currentX, c.currentY)
 }
 
 // addArc adds an arc to the adder p
